@@ -14,7 +14,7 @@ import (
 func init() {
 	register(&Prop{
 		ID:          "C02",
-		Explanation: "Decides the wiring of tamper-evidence and opacity: the signer feeds the MAC (seed as key; cookie name, base64 value, decimal timestamp in that order) and emits value|timestamp|signature built from those same three strings, while the verifier checks part 2 as the signature over (seed, cookie.Name, part 0, part 1) — same roles, same order, all of name, value and timestamp covered on both sides; cookieSignature keys hmac.New with its first argument, writes every further argument and returns the base64 of Sum; checkHmac compares with hmac.Equal the complete base64-decoded presented and expected signatures (no slicing, trimming or prefix compare) after both decode without error; every non-empty value given to MakeCookieFromOptions derives from SignedValue; session, ticket and CSRF payloads are decoded only from the value Validate returned for that cookie (C01.R7, C03.R2); the split-cookie loader hands the joined cookie itself to Validate; msgpack output of a session or CSRF flows only into Cipher.Encrypt (optionally through lz4Compress) and EncodeSessionState returns only Encrypt's result; what is stored server-side and what is signed into cookies derives from those ciphertexts or from the encoded ticket; every Cipher implementation in use wraps AES (cipher constructors enumerated); decodeTicket, DecodeSessionState and the CSRF decrypt are called only from their reviewed, validate-first callers and tickets are constructed only by newTicket/decodeTicket; a new ticket's id and per-ticket AES key are buffers filled by error-free crypto/rand reads. Added during the build: the payload decoders and ticket literals have closed, reviewed caller sets (R7); a new ticket's id and AES key come from successful crypto/rand reads (R8).",
+		Explanation: "Decides the wiring of tamper-evidence and opacity: the signer feeds the MAC (seed as key; cookie name, base64 value, decimal timestamp in that order) and emits value|timestamp|signature built from those same three strings, while the verifier checks part 2 as the signature over (seed, cookie.Name, part 0, part 1) — same roles, same order, all of name, value and timestamp covered on both sides; cookieSignature keys hmac.New with its first argument, writes every further argument and returns the base64 of Sum; checkHmac compares with hmac.Equal the complete base64-decoded presented and expected signatures (no slicing, trimming or prefix compare) after both decode without error; every non-empty value given to MakeCookieFromOptions derives from SignedValue; session, ticket and CSRF payloads are decoded only from the value Validate returned for that cookie (C01.R7, C03.R2); the split-cookie loader hands the joined cookie itself to Validate; msgpack output of a session or CSRF flows only into Cipher.Encrypt (optionally through lz4Compress) and EncodeSessionState returns only Encrypt's result; what is stored server-side and what is signed into cookies derives from those ciphertexts or from the encoded ticket; every Cipher implementation in use wraps AES (cipher constructors enumerated); decodeTicket, DecodeSessionState and the CSRF decrypt are called only from their reviewed, validate-first callers and tickets are constructed only by newTicket/decodeTicket; a new ticket's id and per-ticket AES key are buffers filled by error-free crypto/rand reads. Added during the build: the payload decoders and ticket literals have closed, reviewed caller sets (R7); a new ticket's id and AES key come from successful crypto/rand reads (R8); every encrypting Cipher uses as nonce/IV the very slice an error-free crypto/rand read filled (R9).",
 		NotDecided:  "the cryptography itself; that unkeyed concatenation of name, value and timestamp is unambiguous; base64 laxness; 'decodes to exactly the session' (value semantics over all edits).",
 		Run:         runC02,
 	})
@@ -28,6 +28,7 @@ func runC02(c *Ctx) {
 	r.Rule("R4-encrypt-before-emit", "msgpack output flows only into Encrypt; stored/signed bytes derive from ciphertext", 9)
 	r.Rule("R5-constant-time-full-compare", "checkHmac: hmac.Equal on the complete decoded signatures", 1)
 	r.Rule("R7-decoder-callers", "payload decoders and ticket literals have closed, reviewed caller sets", 6)
+	r.Rule("R9-fresh-nonce", "every encrypting Cipher hands its AEAD/stream the very slice an error-free crypto/rand read filled as nonce/IV", 2)
 	r.Rule("R8-fresh-ticket", "a new ticket's id and AES key come from successful crypto/rand reads", 1)
 	r.Rule("R6-joined-cookie-validated", "the re-assembled split cookie is the one validated", 3)
 
@@ -438,6 +439,7 @@ func runC02(c *Ctx) {
 
 	runC02R4(c)
 	runC02R7R8(c)
+	runC02R9(c, "R9-fresh-nonce")
 }
 
 // returnsOnly: every return of fn has result idx satisfying pred.
@@ -745,4 +747,59 @@ func argIndex(cc *ssa.CallCommon, v ssa.Value) int {
 		}
 	}
 	return -1
+}
+
+// runC02R9: every encrypting Cipher draws a fresh nonce/IV: the slice handed to the AEAD's Seal or to
+// the stream constructor as nonce/IV is the very slice an error-free io.ReadFull(crypto/rand.Reader, ·)
+// filled on that path (a zero or repeated nonce under one key makes ciphertexts of successive saves
+// XOR to the XOR of their plaintexts).
+func runC02R9(c *Ctx, rule string) {
+	encM := c.Method(rule, "pkg/encryption.Cipher.Encrypt")
+	readFull := c.StdFunc(rule, "io.ReadFull")
+	if encM == nil || readFull == nil {
+		return
+	}
+	n := 0
+	for _, impl := range c.P.Implementations(encM) {
+		if !c.P.InModule(impl) || len(impl.Blocks) == 0 {
+			continue
+		}
+		impl := impl
+		c.Walk(rule, impl, func(p *walk.Path) {
+			for _, cl := range p.Calls() {
+				var nonce walk.DV
+				what := ""
+				switch {
+				case cl.C.IsInvoke() && cl.C.Method.Name() == "Seal" && len(cl.C.Args) == 4:
+					nonce, what = p.Arg(cl, 1), "AEAD.Seal nonce"
+				case isStd(cl.C, "crypto/cipher", "NewCFBEncrypter"), isStd(cl.C, "crypto/cipher", "NewCTR"), isStd(cl.C, "crypto/cipher", "NewCBCEncrypter"), isStd(cl.C, "crypto/cipher", "NewOFB"):
+					nonce, what = p.Arg(cl, 1), walk.CalleeName(cl.C)+" IV"
+				default:
+					continue
+				}
+				n++
+				key := "fresh-nonce|" + fnKey(impl)
+				filled := false
+				for _, rc := range p.Find(walk.Static(readFull), cl.Idx) {
+					if globalLoad(unwrap(rc.C.Args[0])) != "crypto/rand.Reader" {
+						continue
+					}
+					if nn, k := p.ResultNil(rc.DV(), 1, cl.Idx); !(k && nn) {
+						continue
+					}
+					if p.Same(p.Arg(rc, 1), nonce) {
+						filled = true
+					}
+				}
+				if filled {
+					c.ok(rule, key, cl.In, what+" is the slice io.ReadFull(rand.Reader, ·) filled without error")
+				} else {
+					c.bad(rule, key, cl.In, "the "+what+" is not the slice that an error-free io.ReadFull(crypto/rand.Reader, ·) filled on this path: the nonce may be all zero or repeat under the same key", p, cl.Idx)
+				}
+			}
+		})
+	}
+	if n == 0 {
+		c.R.Unknown(rule, "fresh-nonce|none", "-", "no Cipher.Encrypt implementation uses a nonce/IV consumer the rule knows")
+	}
 }
